@@ -15,7 +15,7 @@ from supp.nast import extract
 PATHS = [0]
 TWIN = [False]
 ALPHA = 'acdefilmoprsty'
-KW = ('as', 'if', 'is', 'in', 'or', 'def', 'del', 'for', 'try', 'and', 'not')
+KW = ('as', 'if', 'is', 'in', 'or', 'def', 'del', 'for', 'try', 'and', 'not', 'else', 'elif', 'from', 'pass', 'class', 'raise', 'yield')
 
 
 def ok_name(s, lo, hi):
@@ -24,8 +24,11 @@ def ok_name(s, lo, hi):
     for ch in s:
         if ch not in ALPHA:
             return False
+    n = len(s)
     for k in KW:
-        if s == k:
+        # (only words of the same length: comparing a symbolic string with a longer constant made CrossHair
+        # report candidates that do not reproduce)
+        if len(k) == n and s == k:
             return False
     return True
 
@@ -54,7 +57,7 @@ def text_at(lines, loc, n):
 def header(kind: int, name: str, ind: int, n1: int, n2: int, deco: int, cont: int = 0) -> bool:
     """
     pre: 0 <= kind <= 2
-    pre: ok_name(name, 1, 3)
+    pre: ok_name(name, 1, 5)
     pre: 0 <= ind <= 1 and 0 <= n1 <= 3 and 0 <= n2 <= 2 and 0 <= deco <= 1 and 0 <= cont <= 1
     pre: n1 >= 1 or cont == 1
     post: _
